@@ -294,6 +294,35 @@ def check (pid : String) (j : Json) : Except String Verdict := do
         if newSid != 3 then r := r.specFail (some s!"C04: after two failures the newest stream is {newSid}")
         let prevB : Obs := { prev with interest := fun t => if t = rt then (prev.interest t).map (fun ws => sortStr (ws ++ [first])) else prev.interest t }
         r := r.specFail (c04reconnect prevB o newSid)
+    | "parked-ack" =>
+      -- the receiver is parked while it hands the acknowledgement to the channel; a lookup of another name misses meanwhile
+      let rt ← match rtOfStr (jStrD st "rt" "?") with | some t => pure t | none => throw "parked-ack: type"
+      let v ← jStr st "v"
+      let nonce ← jStr st "nonce"
+      let n ← jStr st "n"
+      let resp : Resp := { rt := rt, version := v, nonce := nonce, slots := ← parseSlots st }
+      r := r.op cfg (.push resp now) what
+      r := { r with issued := r.issued ++ [(o.streams, nonce)] }
+      r := r.op cfg (.touch rt n now) what
+      r := r.op cfg (.subscribe rt n) what
+      r := r.drain cfg
+      r := r.compare o oj uni what
+    | "parked-watch-reconnect" =>
+      -- a lookup is parked while it hands its request to the channel; the stream fails meanwhile; the reconnect waits for it
+      let rt ← match rtOfStr (jStrD st "rt" "?") with | some t => pure t | none => throw "parked-watch-reconnect: type"
+      let n ← jStr st "n"
+      r := r.op cfg (.touch rt n now) what
+      r := r.op cfg (.subscribe rt n) what
+      r := r.op cfg .reconnectDrain what
+      r := r.op cfg .publish what
+      let newSid := o.streams
+      let order := (o.reqs.filter (fun q => q.sid = newSid)).map (·.rt) |>.take (watchedTypes r.s).length
+      r := r.op cfg (.senderAdopt order order.length) what
+      r := r.drain cfg
+      r := r.compare o oj uni what
+      if pid = "C04" then
+        let prevB : Obs := { prev with interest := fun t => if t = rt then (prev.interest t).map (fun ws => sortStr (ws ++ [n])) else prev.interest t }
+        r := r.specFail (c04reconnect prevB o newSid)
     | "stalled-reconnect" =>
       let rt ← match rtOfStr (jStrD st "rt" "?") with | some t => pure t | none => throw "stalled-reconnect: type"
       let first ← jStr st "first"
@@ -429,7 +458,7 @@ def check (pid : String) (j : Json) : Except String Verdict := do
     | x => throw s!"unknown step {x}"
     r := r.track o
     if pid = "C03" then
-      if kind != "burst" && kind != "stalled-reconnect" && kind != "stalled-ack" then r := r.specFail (c03 o (nodeOk oj))
+      if kind != "burst" && kind != "stalled-reconnect" && kind != "stalled-ack" && kind != "parked-ack" then r := r.specFail (c03 o (nodeOk oj))
       let stale := o.closed || !sendOk || r.failing.contains o.streams
       if !stale then r := r.specFail (c03quiescent o (fun rt => (r.lastOnLive.find? (fun e => e.1 = rt)).map (·.2)))
     if pid = "C04" then r := r.specFail (c04nonces o r.issued)
